@@ -124,9 +124,18 @@ def resurrected (cfg : RouteCfg) (dflt : Lut K) (t : PLut K) : PLut K :=
   if cfg.keepsRemoved then []
   else (dflt.filter fun p => !(t.hasKey p.1)).map fun p => (p.1, ⟨p.2, true⟩)
 
-/-- the table of the restored object's registry -/
+/-- what the route does to the identity bit of one row (rows keyed by a default symbol / user rows) -/
+def rowCanonEff (cfg : RouteCfg) (dflt : Lut K) (p : String × PRow K) : Bool :=
+  match dflt.find? p.1 with
+  | some _ => cfg.dfltRowCanon.apply p.2.canon
+  | none => cfg.userRowCanon.apply p.2.canon
+
+/-- the table of the restored object's registry.  On a route that shares the `lut` dict the rows are
+    the original's; their identity bits still follow the route's effect (`copy.copy(registry)` goes
+    through `UnitRegistry.__setstate__`, which re-interns the rows of the SHARED table in place) -/
 def restoreRows (cfg : RouteCfg) (dflt : Lut K) (t : PLut K) : PLut K :=
-  if cfg.regSame then t else t.filterMap (restoreRow cfg dflt) ++ resurrected cfg dflt t
+  if cfg.regSame then t.map fun p => (p.1, ⟨p.2.e, rowCanonEff cfg dflt p⟩)
+  else t.filterMap (restoreRow cfg dflt) ++ resurrected cfg dflt t
 
 def restoreReg (cfg : RouteCfg) (dflt : Lut K) (R : PReg K) : PReg K :=
   ⟨restoreRows cfg dflt R.rows, if cfg.regSame || cfg.keepsUnitSystem then R.usys else "mks"⟩
@@ -165,7 +174,8 @@ structure EqTests (K : Type) where
 
 /-- every row comes back as it was, and nothing comes back that was not there -/
 def rowsGuard (E : EqTests K) (cfg : RouteCfg) (dflt : Lut K) (t : PLut K) : Bool :=
-  cfg.regSame ||
+  if cfg.regSame then t.all fun p => rowCanonEff cfg dflt p == p.2.canon
+  else
   (t.all (fun p =>
       match dflt.find? p.1 with
       | some d => (cfg.keepsModifiedDefault || E.entry p.2.e d) && cfg.dfltRowCanon.apply p.2.canon == p.2.canon
@@ -271,7 +281,8 @@ def follow (C : FCtx K) (op : FollowOp K) (x : PObj K) : Except Err (Res K) :=
     | .error err => .error err
     | .ok u1 =>
       viaDispatch C x f [x.operand, .unyt .quantity ⟨u1, reprOf u1⟩ { shape := [], allZero := v == 0 }]
-        fun o a => (a + (match o.factor with | some k => v * k | none => v)) * o.mul
+        fun o a => ((match o.factorFirst with | some k => a * k | none => a)
+                      + (match o.factor with | some k => v * k | none => v)) * o.mul
   | .binarySelf f =>
     viaDispatch C x f [x.operand, x.operand] fun o a => (a + a) * o.mul
   | .mulUnit e =>
